@@ -1,4 +1,203 @@
 package chk
 
-// placeholder, replaced by the S-MEMBER implementation
-func ruleSMEMBER(c *Ctx, r *Report) {}
+// E7 S-MEMBER — the traversals of a composite (Size, Encode, EncodeSW) visit the same members, in the
+// same order, under the same guards. Decided with the layout interpreter on a symbolic receiver whose
+// members are opaque: each member contributes "child(Size(member))".
+
+import (
+	"fmt"
+	"go/types"
+	"sort"
+	"strings"
+)
+
+type memberVerdict struct {
+	typ   string
+	nCfg  int
+	se    map[string]string
+	ee    map[string]string
+	irr   map[string]string
+	err   string
+	facts map[string]map[string]string
+	dom   map[string]map[string]bool
+}
+
+func analyseComposite(c *Ctx, typ string) *memberVerdict {
+	mv := &memberVerdict{typ: typ, se: map[string]string{}, ee: map[string]string{}, irr: map[string]string{}, facts: map[string]map[string]string{}, dom: map[string]map[string]bool{}}
+	p := c.Pkg("mp4")
+	tn, _ := p.Types.Scope().Lookup(typ).(*types.TypeName)
+	if tn == nil {
+		mv.err = "type not found"
+		return mv
+	}
+	ex := newExplorer(c)
+	run := func(in *Interp) (out *cfgOutcome) {
+		out = &cfgOutcome{}
+		defer func() {
+			if r := recover(); r != nil {
+				if pe, ok := r.(phaseErr); ok {
+					out.irregs = append(out.irregs, pe.phase+": "+pe.why)
+					return
+				}
+				panic(r)
+			}
+		}()
+		root := in.newObj(tn.Type())
+		root.Sym = true
+		in.symRoot = root
+		fr := &frame{pkg: p, env: map[types.Object]Val{}}
+		var size *Expr
+		in.phase("Size", func() {
+			sv := in.callMethod(fr, root, "Size", nil, nil)
+			e, ok := sv.(*Expr)
+			if !ok {
+				bail("Size() returned %s", showValShallow(sv))
+			}
+			size = e
+		})
+		sw := in.newStream(true, "sw")
+		var swErr, wErr Val
+		in.phase("EncodeSW", func() { swErr = in.callMethod(fr, root, "EncodeSW", []Val{sw}, nil) })
+		w := in.newStream(true, "w")
+		in.phase("Encode", func() { wErr = in.callMethod(fr, root, "Encode", []Val{w}, nil) })
+		f := map[string]string{}
+		for name, ks := range in.cfg {
+			for _, k := range ks {
+				f[fmt.Sprintf("%s[%d:%d]", name, k.lo, k.lo+k.n)] = fmt.Sprint(k.val)
+			}
+		}
+		out.facts = f
+		e1, ok1 := swErr.(ErrV)
+		e2, ok2 := wErr.(ErrV)
+		rej1, rej2 := ok1 && e1.NonNil, ok2 && e2.NonNil
+		if rej1 != rej2 {
+			out.problems = append(out.problems, fmt.Sprintf("EE|one encoder fails and the other succeeds (EncodeSW fails=%v, Encode fails=%v)", rej1, rej2))
+			return out
+		}
+		if rej1 {
+			out.rejected = true
+			return out
+		}
+		a, b := nodesString(in.flatten(sw.T, false, nil, c)), nodesString(in.flatten(w.T, false, nil, c))
+		if a != b {
+			out.problems = append(out.problems, "EE|Encode and EncodeSW visit different members: EncodeSW "+a+" vs Encode "+b)
+		}
+		want := in.mkBin("*", cI(8), size, typInfo{64, true})
+		if polyOf(want).String() != polyOf(sw.T.BitPos).String() {
+			out.problems = append(out.problems, fmt.Sprintf("SE|Size() = %s bytes but EncodeSW writes %s bits", size, polyOf(sw.T.BitPos)))
+		}
+		return out
+	}
+	outs, err := ex.explore(run)
+	mv.err = err
+	for _, o := range outs {
+		mv.nCfg++
+		for _, ir := range o.irregs {
+			ph := ir[:strings.Index(ir, ":")]
+			if _, ok := mv.irr[ph]; !ok {
+				mv.irr[ph] = ir + " [cfg " + o.cfg + "]"
+			}
+		}
+		if o.facts != nil && !o.rejected {
+			mv.facts[o.cfg] = o.facts
+			for k, v := range o.facts {
+				if mv.dom[k] == nil {
+					mv.dom[k] = map[string]bool{}
+				}
+				mv.dom[k][v] = true
+			}
+		}
+		for _, pr := range o.problems {
+			kind, msg := pr[:2], pr[3:]
+			m := mv.se
+			if kind == "EE" {
+				m = mv.ee
+			}
+			if _, ok := m[o.cfg]; !ok {
+				m[o.cfg] = msg
+			}
+		}
+	}
+	return mv
+}
+
+var compositeTypes = []string{"File", "InitSegment", "MediaSegment", "Fragment"}
+
+func reportMember(r *Report, rule, typ string, mv *memberVerdict, probs map[string]string, what string) {
+	name := "mp4." + typ
+	if mv.err != "" {
+		r.Undecided(rule, name, "", "exploration incomplete: "+mv.err)
+		return
+	}
+	if len(mv.irr) > 0 {
+		var phs []string
+		for ph := range mv.irr {
+			phs = append(phs, ph)
+		}
+		sort.Strings(phs)
+		r.Undecided(rule, name, "", "construct not modelled by the layout interpreter: "+mv.irr[phs[0]])
+		return
+	}
+	v := &boxVerdict{factsOf: mv.facts, factDom: mv.dom}
+	byKind := map[string][]string{}
+	for cfg, m := range probs {
+		byKind[kindOf(m)] = append(byKind[kindOf(m)], cfg)
+	}
+	var kinds []string
+	for k := range byKind {
+		kinds = append(kinds, k)
+	}
+	sort.Strings(kinds)
+	for _, k := range kinds {
+		cfgs := byKind[k]
+		sort.Strings(cfgs)
+		ex := cfgs[0]
+		for _, cf := range cfgs {
+			if len(cf) < len(ex) {
+				ex = cf
+			}
+		}
+		class := classOf(v, cfgs)
+		key := name + ":" + k
+		if class != "" {
+			key += ":" + class
+		}
+		r.Bad(rule, key, "", fmt.Sprintf("%s — in %d of %d configurations (class %s), e.g. %s: %s", what, len(cfgs), mv.nCfg, class, ex, probs[ex]))
+	}
+	r.OK(rule, name, "", fmt.Sprintf("%d configurations of the composite's discriminants explored; %d disagreement classes", mv.nCfg, len(kinds)))
+}
+
+var memberCache map[*Ctx]map[string]*memberVerdict
+
+func compositeVerdicts(c *Ctx) map[string]*memberVerdict {
+	if memberCache == nil {
+		memberCache = map[*Ctx]map[string]*memberVerdict{}
+	}
+	if m, ok := memberCache[c]; ok {
+		return m
+	}
+	m := map[string]*memberVerdict{}
+	for _, t := range compositeTypes {
+		m[t] = analyseComposite(c, t)
+	}
+	memberCache[c] = m
+	return m
+}
+
+// ruleSMEMBER (size side, C02 / C12): Size() counts exactly what EncodeSW writes.
+func ruleSMEMBER(c *Ctx, r *Report) {
+	m := compositeVerdicts(c)
+	for _, t := range compositeTypes {
+		reportMember(r, "S-MEMBER-size", t, m[t], m[t].se, "Size() and EncodeSW of the composite visit different members")
+	}
+	r.Floor("S-MEMBER-size", len(compositeTypes))
+}
+
+// ruleSMEMBEREnc (encoder side, C03 / C12): Encode and EncodeSW visit the same members in the same order.
+func ruleSMEMBEREnc(c *Ctx, r *Report) {
+	m := compositeVerdicts(c)
+	for _, t := range compositeTypes {
+		reportMember(r, "S-MEMBER-enc", t, m[t], m[t].ee, "Encode and EncodeSW of the composite disagree")
+	}
+	r.Floor("S-MEMBER-enc", len(compositeTypes))
+}
